@@ -161,6 +161,11 @@ def lp_model(cg: ComputationGraph,
         for l in cg.links:
             # As we support hypergraph, we may have more than 2 ends to a link
             for c1, c2 in combinations(l.nodes, 2):
+                if (c1, a1, c2, a2) in betas:
+                    # Several links between these two computations: the
+                    # variables have already been created (msg_load
+                    # accounts for all the links between c1 and c2).
+                    continue
                 count += 2
                 b = LpVariable('b_{}_{}_{}_{}'.format(c1, a1, c2, a2),
                                cat=LpBinary)
